@@ -128,8 +128,22 @@ def gen_plan(rng, tier, i, seed):
                 fault = "none"
                 genes = list(names)
     rebuild = (fault == "none" and profile_name is None and rng.random() < 0.2)
+    profile_opts = None
+    if not rebuild and profile_name is None and rng.random() < 0.25:
+        # the profile is a YAML file whose options section sets parameters (they are part of the archive's
+        # pickled profile; the replay gets no profile at all and must end the same way)
+        profile_opts = {}
+        names_ = rng.sample(["min_avg_coverage", "gap", "min_coverage", "threshold", "minor_add", "max_minor_solutions"],
+                            rng.randint(1, 2))
+        if rng.random() < 0.5 and "min_avg_coverage" not in names_:
+            names_.append("min_avg_coverage")  # (the dump reader has its own idea of this one)
+        for n in names_:
+            profile_opts[n] = {"min_avg_coverage": rng.choice([1000, 1000, 5]), "gap": 0.3, "min_coverage": 8,
+                               "threshold": 0.4, "minor_add": 1.1, "max_minor_solutions": 2}[n]
+        params.pop("min_avg_coverage", None)
     return {
         "rebuild": rebuild,
+        "profile_opts": profile_opts,
         "w": w,
         "genes": genes,
         "params": params,
@@ -179,7 +193,8 @@ def execute(plan, runner, rundir):
         return _execute_rebuild(plan, runner, rundir)
     wd, (worlddir, man) = _materialise(runner, w)
     common = {"worlddir": worlddir, "man": man, "rundir": rundir, "build": w["build"], "genes": plan["genes"],
-              "params": plan["params"], "cn": plan["cn"], "out": plan["out"], "profile_name": plan.get("profile_name")}
+              "params": plan["params"], "cn": plan["cn"], "out": plan["out"], "profile_name": plan.get("profile_name"),
+              "profile_opts": plan.get("profile_opts"), "world": w["world"] if plan.get("profile_opts") else None}
 
     def direct():
         rd = runner.new_dir("direct")
@@ -191,7 +206,7 @@ def execute(plan, runner, rundir):
             shutil.rmtree(rd, ignore_errors=True)
 
     ref = runner.memoised(("direct", wd, canon.digest([plan["genes"], plan["params"], plan["cn"], plan["out"],
-                                                       plan.get("profile_name")])),
+                                                       plan.get("profile_name"), plan.get("profile_opts")])),
                           direct)
     sim = {}
     if plan["fault"] == "solver":
@@ -472,6 +487,8 @@ def _argv(seg, source, debug=None, outp=None, genes=None, with_profile=True):
         argv += ["--profile", seg["profile_name"]]
         if with_profile:
             argv += ["-n", man["neutral"]]
+    elif with_profile and seg.get("profile_opts"):
+        argv += ["--profile", _profile_with_options(seg)]
     elif with_profile:
         argv += ["--profile", os.path.join(wd, man["ref_bam"]), "-n", man["neutral"]]
     if seg["build"] != "hg19" and (with_profile or seg.get("profile_name")):
@@ -486,6 +503,27 @@ def _argv(seg, source, debug=None, outp=None, genes=None, with_profile=True):
         argv += ["--param", f"{k}={v}"]
     argv += ["--solver", "cbc"]
     return argv
+
+
+def _profile_with_options(seg):
+    """Profile YAML written by aldy's profile generator from the reference sample, plus a hand-written
+    options section."""
+    import yaml
+
+    rd = seg["rundir"]
+    path = os.path.join(rd, "profile-with-options.yml")
+    if not os.path.exists(path):
+        d = os.path.join(rd, "pw")
+        os.makedirs(d, exist_ok=True)
+        for f in os.listdir(seg["worlddir"]):
+            if not os.path.lexists(os.path.join(d, f)):
+                os.symlink(os.path.join(seg["worlddir"], f), os.path.join(d, f))
+        O.write_profile_yaml(seg["world"], d, "ref.bam", seg["build"], {}, "plain.yml")
+        doc = yaml.safe_load(open(os.path.join(d, "plain.yml")))
+        doc["options"] = dict(seg["profile_opts"])
+        with open(path, "w") as f:
+            f.write(yaml.dump(doc, default_flow_style=None))
+    return path
 
 
 def _collect(calls):
